@@ -13,7 +13,7 @@ Clauses(e) ==
     [] e.kind = "sampler" -> (IF e.out # Sampler(e.x, e.sps, e.k) THEN {"sampler-signal"} ELSE {}) \cup
                              (IF Len(e.noise) > 0 /\ e.outnoise # Sampler(e.noise, e.sps, e.k) THEN {"sampler-noise"} ELSE {}) \cup
                              (IF Len(e.noise) = 0 /\ e.outnoise # <<>> THEN {"sampler-noise-invented"} ELSE {})
-    [] e.kind = "decide" -> IF InsidePulse(e.shape, e.sps, e.k) /\ Decide(e.samples, e.vout, e.bias) # e.bits THEN {"sampler-inverts-dac"} ELSE {}
+    [] e.kind = "decide" -> IF e.vout # 0 /\ InsidePulse(e.shape, e.sps, e.k) /\ Decide(e.samples, e.vout, e.bias) # e.bits THEN {"sampler-inverts-dac"} ELSE {}
     [] e.kind = "gauss" -> (IF e.len # e.nbits * e.sps THEN {"length"} ELSE {}) \cup
                            (IF ~GaussOK(e.sps, e.T, e.idx, e.peakppm, e.fwhm) THEN {"gaussian-pulse-bands"} ELSE {}) \cup
                            (IF e.rxbits # e.bits THEN {"gaussian-sampler-inverts-dac"} ELSE {})
